@@ -367,7 +367,8 @@ EXTRA = {
            'string comparisons cover whole strings and whole ranges (C16.7).',
     'C17': ' Further: the I/O path is released on every path on which it was acquired (C17.8); serials are written in '
            'the message\'s byte order (C17.9); condition variables wait on the clock their deadline was read from '
-           '(C17.10); hash front ends convert keys alike (C17.11); callbacks get the data registered with them (C17.12).',
+           '(C17.10); hash front ends convert keys alike (C17.11); callbacks get the data registered with them (C17.12); '
+           'the prepared timeout error is queued whenever it exists (C17.13).',
     'C18': ' Further: capture and route name the same parties (C18.8); a name in a monitor\'s filter stands for its '
            'primary owner only (C18.9); counters notify on crossings (C18.10); list operations incl. copy under failing '
            'allocations (C18.11); what monitors are shown is behind the sender stamp (C18.12).',
